@@ -157,3 +157,36 @@ def band_footprints_case(work, rng, model='gain-offset', tag='bf', threads=1):
     desc = dict(geom=g.describe(), bands=2, band_1_has_no_data_in=side, model=model, kernel_shape=[3, 3], proc_crs='src', blocks=nblk, max_block_mem=mbm, threads=threads,
                 coefficients=coeffs)
     return dict(res=res, src=src, valid=valid, coeffs=coeffs, desc=desc, nblk=nblk)
+
+
+def island_case(work, rng, n_island, model='gain-blk-offset', tag='isl', threads=1):
+    """A source whose valid data are a large body plus a tiny ISLAND of `n_island` (2 .. 9) pixels that sits alone in its block (and in the overlap
+    the block reads): the reference, on the same grid, is exactly a * source + b and valid everywhere.  16 blocks on the source grid.  However few
+    pixels a block holds, they are corrected like all others - with the block's own statistics, not with a fallback, and not dropped."""
+    H, W = rng.randint(48, 60), rng.randint(48, 60)
+    off = (rng.randint(1, 2), rng.randint(1, 2))
+    g = synth.Geom(1.0, 1, *rng.choice([(16.0, 48.0), (300000.0, 6200000.0)]), (H + off[0] + 2, W + off[1] + 2), off, (H, W))
+    src = fz.texture(rng, (H, W), 1, lo=20, hi=200).astype('float32')
+    sm = np.zeros((H, W), bool)
+    sm[:, :W // 2 - 2] = True
+    # the island: n pixels of pairwise different values in a 3 x 3 patch near the lower right corner, more than 8 pixels from anything else valid
+    r0, c0 = H - 8, W - 8
+    cells = [(r0 + i, c0 + j) for i in range(3) for j in range(3)][:n_island]
+    for k_, (r, c) in enumerate(cells):
+        sm[r, c] = True
+        src[0, r, c] = 40 + 13 * k_
+    a, b = rng.choice([0.5, 1.5, 2.0]), rng.choice([-8.0, 16.0, 32.0])
+    ref = fz.texture(rng, g.ref_shape, 1, lo=30, hi=180).astype('float32')
+    ref[0, off[0]:off[0] + H, off[1]:off[1] + W] = np.float32(a) * src[0] + np.float32(b)
+    sfn, rfn = work / f'{tag}_src.tif', work / f'{tag}_ref.tif'
+    synth.write_tif(sfn, src, g.src_transform, mask=sm)
+    synth.write_tif(rfn, ref, g.ref_transform)
+    mbm, nblk = fz.pick_block_mem(sfn, rfn, 'src', 16, (3, 3))
+    res = fz.fuse(sfn, rfn, work / f'{tag}_out.tif', model=model, kernel_shape=(3, 3), proc_crs='src', max_block_mem=mbm, threads=threads,
+                  model_config=dict(r2_inpaint_thresh=None), out_profile=dict(dtype='float32', nodata=float('nan')))
+    island = np.zeros((H, W), bool)
+    for (r, c) in cells:
+        island[r, c] = True
+    desc = dict(geom=g.describe(), model=model, kernel_shape=[3, 3], proc_crs='src', blocks=nblk, max_block_mem=mbm, threads=threads, island_pixels=n_island,
+                island_at=[int(r0), int(c0)], a=a, b=b)
+    return dict(res=res, src=src, smask=sm, island=island, a=a, b=b, desc=desc, nblk=nblk)
